@@ -164,9 +164,25 @@ PROPS = {
         level_note='Words not under contract (collection words, printing, bit-string words) are NOT covered; D18 (get/insert/remove match the raw cell) is outside the functions under contract here.',
         not_decided=['words outside src/arith.rs and the accessors of src/cell.rs'],
     ),
+    'C12': dict(
+        title='Maps, vectors and strings obey collection laws under the language\'s equality',
+        verus_units=['collections', 'cell'],
+        kani_groups=['state_idx.rs'],
+        design_ref='DESIGN.md section 5 / C12',
+        technique='Verus contracts on eq/partial_cmp/cmp of Cell and on relative_index/slicing_index/vector_get/nth/get/push/insert/remove/length against Seq / assumed-map models; '
+                  'Kani full-domain proofs of the two index helpers',
+        level_text='Partial. Proved for all values: equal? is same-type-and-equal-payload and ignores tags; for integer and string keys the key order agrees with equal?; nth/get agree with '
+                   'the sequence model for EVERY index including negative ones and the i128 extremes (out of range is an error, never another element); push builds a new vector and leaves '
+                   'its operand alone; get/insert/remove apply the map operation to the tag-stripped collection and the given key. Known finding D17 (reported as KNOWN-FINDING): the key order '
+                   'returns Equal for values of different or non-scalar types, so such keys collide.',
+        level_note='Assumed: rpds Vector/RedBlackTreeMap are a persistent sequence / a map under the key order (their operations have assumed contracts); equality/order of arcstr strings, '
+                   'bit-strings and rpds collections. NOT decided: slice, reverse, sort, collect, unbox, concat, join (iterator adapter chains: outside Verus, Cell-level: outside Kani), foreach; '
+                   'persistence of collections is a property of rpds.',
+        not_decided=['slice/reverse/sort/collect/unbox/concat/join/foreach', 'persistence (rpds)', 'map literal / builder words'],
+    ),
     'C08': dict(
         title='No source text, input or API call sequence can crash the interpreter',
-        verus_units=['bitstr', 'state', 'compile', 'cell', 'arith'],
+        verus_units=['bitstr', 'state', 'compile', 'cell', 'arith', 'collections'],
         kani_groups=['state_idx.rs', 'codec.rs'],
         design_ref='DESIGN.md section 5 / C08',
         technique='panic freedom of exactly the functions under contract: Verus checks every arithmetic operation for overflow, every index, unwrap, division, unreachable!/panic! site; Kani runs with overflow/bounds checks',
@@ -186,7 +202,7 @@ NOT_APPLICABLE = {
     'C18': 'the round-trip law lives entirely in the external base32/base64/z85 crates; assuming it would make the wrappers verify vacuously; the xeh-owned byte export is a C04 obligation',
  'C05': 'unit not built yet in this round', 'C06': 'unit not built yet in this round',
     'C07': 'unit not built yet in this round',
- 'C12': 'unit not built yet in this round',
+
 
 
 }
